@@ -232,6 +232,8 @@ class Generator:
             return {"e": "pool", "x": eid}
         if kind == "lit":
             return {"e": "lit", "v": rng.randrange(1, 1000)}
+        if kind == "litcast":
+            return {"e": "litcast", "v": rng.randrange(1, 1000)}
         if not anyc:
             return None
         oos = self.maybe_oos(pt) if pt is not None else None
